@@ -7,7 +7,7 @@ PROP = "coq/C13/Properties_C13.v"
 EXTRACT = "coq/C13/Extract_C13.v"
 DRIVER = "props/C13/driver.ml"
 UNIT_SRC = ["props/C13/unit.cpp"]
-FUEL = 60
+FUEL = 160        # GenDeps_enable_terminates: 4 levels * 39 + 38 < 160
 NATOMS = 12
 
 SEED_CONF = """colvar {
@@ -48,15 +48,20 @@ def regen_tables(unit):
     return ts, tl
 
 
-def setup():
+def presetup():
+    """before the Coq build: coq/Gen/GenDeps.v from the tables of the freshly built binary"""
     unit = V.build_prog("c13unit", UNIT_SRC)
     regen_tables(unit)
     V.coq_project()
+
+
+def setup():
+    presetup()
     V.extract_model("C13", EXTRACT, DRIVER, [])
 
 
 # ------------------------------------------------------------------ scenario generator
-CV_KINDS = ["distanceZ", "distance", "dihedral", "distanceVec", "gyration", "angle", "combo"]
+CV_KINDS = ["distanceZ", "distance", "dihedral", "distanceVec", "gyration", "angle", "combo", "fitdist", "rmsd"]
 
 
 def gen_colvar(r, name, ext_ok=True):
@@ -97,7 +102,19 @@ def gen_colvar(r, name, ext_ok=True):
         if k == "gyration":
             ids = r.sample(range(1, NATOMS + 1), 3)
             return ["  gyration {", "    atoms { atomNumbers %d %d %d }" % tuple(ids), "  }"]
-    if kind == "combo":
+    if kind == "fitdist":
+        # an atom group with a separate fitting group (atoms held by the group AND by its fitting group, shared with other
+        # variables): centerToReference moves the frame, the fitting group's atoms are requested from the engine too
+        ids = r.sample(range(1, NATOMS + 1), 3)
+        L += ["  distance {", "    group1 {", "      atomNumbers %d %d" % (a(), a()), "      centerToReference on",
+              "      fittingGroup {", "        atomNumbers %d %d %d" % tuple(ids), "      }",
+              "      refPositions (0.0, 0.0, 0.0) (1.0, 0.0, 0.0) (0.0, 1.0, 0.5)", "    }",
+              "    group2 { atomNumbers %d }" % a(), "  }"]
+    elif kind == "rmsd":
+        ids = r.sample(range(1, NATOMS + 1), 3)
+        L += ["  rmsd {", "    atoms { atomNumbers %d %d %d }" % tuple(ids),
+              "    refPositions (0.0, 0.0, 0.0) (1.0, 0.0, 0.0) (0.0, 1.0, 0.5)", "  }"]
+    elif kind == "combo":
         L += comp("distanceZ") + comp("distance")
     else:
         L += comp(kind)
@@ -119,6 +136,9 @@ def gen_bias(r, name, cvs):
         return None
     n = 1 if (kind == "abf" or r.random() < 0.7) else min(2, len(cand))
     sel = r.sample(cand, n)
+    if kind == "harmonic" and n == 1 and r.random() < 0.15:
+        sel = sel + sel          # `colvars x x`: the same variable twice (children/parents with multiplicity 2)
+        n = 2
     names = [c["name"] for c in sel]
     L = [kind + " {", "  name " + name, "  colvars " + " ".join(names)]
     if kind == "harmonic":
@@ -191,16 +211,77 @@ def gen_sequence(r, k, length, with_set=True):
             else:
                 c = r.choice(cvs)
                 fid = r.choice([0, 3, 4, 5, 6, 7, 8, 10, 11, 12, 17, 18, 19, 20, 27, r.randint(0, 37)])
-                if fid in (28, 29):     # running average / correlation function: see finding F5 (fixed witness)
-                    fid = 27
                 ev.append({"op": "set", "kind": "colvar", "name": c["name"], "fid": fid, "val": r.randint(0, 1)})
     # identity stream: no extended-Lagrangian variables and engine total forces that do not contain the Colvars
     # forces, so that a deleted bias cannot legitimately have changed the state of a survivor while it existed
     return {"id": k, "samestep": samestep, "events": ev, "includecv": 1 if with_set else 0}
 
 
+# ------------------------------------------------------------------ exhaustive enumeration (thorough tier)
+ENUM_ALPHABET = ["A", "B", "H", "G", "DB", "DV", "R", "S"]
+
+
+def enum_sequences(maxlen):
+    """ALL sequences up to length maxlen over {A: add variable (distance 1-2, outputTotalForce), B: add variable (distance with
+    a fitting group, shares atom 2), H: add harmonic (timeStepFactor 2) on the first live variable, G: add harmonic on every
+    live variable (at most 2), DB: delete the last live bias, DV: delete the first live variable, R: reset, S: step};
+    a sequence whose operation has nothing to act on is dropped (it is not a history); a final step is appended"""
+    import itertools
+    k = 0
+    for n in range(1, maxlen + 1):
+        for word in itertools.product(ENUM_ALPHABET, repeat=n):
+            ev, cvs, biases = [], [], []
+            ncv = nb = nstep = 0
+            ok = True
+            for w in word:
+                if w in ("A", "B"):
+                    name = "e%s%d" % (w.lower(), ncv); ncv += 1
+                    if w == "A":
+                        conf = ("colvar {\n  name %s\n  outputTotalForce on\n  distance {\n    group1 { atomNumbers 1 }\n    group2 { atomNumbers 2 }\n  }\n}\n" % name)
+                    else:
+                        conf = ("colvar {\n  name %s\n  distance {\n    group1 {\n      atomNumbers 3 4\n      centerToReference on\n      fittingGroup {\n"
+                                "        atomNumbers 2 5 6\n      }\n      refPositions (0.0, 0.0, 0.0) (1.0, 0.0, 0.0) (0.0, 1.0, 0.5)\n    }\n"
+                                "    group2 { atomNumbers 2 }\n  }\n}\n" % name)
+                    c = {"name": name, "kind": "distance", "scalar": True, "opts": {}, "conf": conf}
+                    cvs.append(c); ev.append({"op": "addcv", "cv": c})
+                elif w in ("H", "G"):
+                    if not cvs:
+                        ok = False; break
+                    sel = cvs[:1] if w == "H" else cvs[:2]
+                    name = "e%s%d" % (w.lower(), nb); nb += 1
+                    conf = "harmonic {\n  name %s\n  colvars %s\n  centers %s\n  forceConstant 2.0\n%s}\n" % (
+                        name, " ".join(c["name"] for c in sel), " ".join(["0.5"] * len(sel)), "  timeStepFactor 2\n" if w == "H" else "")
+                    b = {"name": name, "kind": "harmonic", "cvs": [c["name"] for c in sel], "conf": conf}
+                    biases.append(b); ev.append({"op": "addbias", "bias": b})
+                elif w == "DB":
+                    if not biases:
+                        ok = False; break
+                    b = biases.pop(); ev.append({"op": "delbias", "name": b["name"]})
+                elif w == "DV":
+                    if not cvs:
+                        ok = False; break
+                    c = cvs.pop(0)
+                    gone = [b for b in biases if c["name"] in b["cvs"]]
+                    biases = [b for b in biases if c["name"] not in b["cvs"]]
+                    ev.append({"op": "delcv", "name": c["name"], "also": [b["name"] for b in gone]})
+                elif w == "R":
+                    if not cvs and not biases:
+                        ok = False; break
+                    cvs, biases = [], []; ev.append({"op": "reset"})
+                elif w == "S":
+                    nstep += 1
+                    ev.append({"op": "step", "pos": [(a, 0.5 * a + 0.25 * nstep, 0.25 * ((a * 7 + nstep) % 5) - 0.5, 0.125 * ((a * 3) % 7) + 0.25 * nstep) for a in range(1, NATOMS + 1)]})
+            if not ok:
+                continue
+            ev.append({"op": "step", "pos": [(a, 0.5 * a - 0.125, 0.25 * ((a * 7) % 5) - 0.25, 0.125 * ((a * 3) % 7) + 1.0) for a in range(1, NATOMS + 1)]})
+            yield {"id": "enum-%d" % k, "word": " ".join(word), "samestep": 1, "events": ev, "includecv": 0, "enum": True}
+            k += 1
+
+
 def start_lines(seq):
-    L = ["natoms %d" % NATOMS, "samestep %d" % seq["samestep"], "includecv %d" % seq.get("includecv", 1), "temperature 300.0", "new"]
+    L = ["natoms %d" % NATOMS, "samestep %d" % seq["samestep"], "includecv %d" % seq.get("includecv", 1), "temperature 300.0",
+         "tfonrequest 1",      # total forces are exported only while requested, as NAMD/LAMMPS do
+         "new"]
     for a in range(1, NATOMS + 1):
         # a non-degenerate start configuration
         L.append("pos %d %r %r %r" % (a, 0.5 * a, 0.25 * ((a * 7) % 5) - 0.5, 0.125 * ((a * 3) % 7) + 0.25))
@@ -393,6 +474,62 @@ def model_line(lagged, opline, st):
     return "OP %d %d %s %s ST %s" % (1 if lagged else 0, FUEL, op, " ".join(args), D.encode_state(st))
 
 
+def obj_index(st, desc):
+    k = [j for j, ob in enumerate(st["objs"]) if ob["desc"] == desc]
+    return k[0] if len(k) == 1 else None
+
+
+def shape_tokens(avail):
+    return [str(len(avail))] + [str(a) for a in avail]
+
+
+def module_case(ev, blk, prev, cur, lag):
+    """the model's module-level operation that corresponds to a history event, as a driver line, or None.
+    Returns (line, compare_feature_states)"""
+    if not D.encodable(prev):
+        return None
+    head = "MOP %d %d " % (lag, FUEL)
+    tail = " " + D.encode_mstate(prev, NATOMS)
+    op = ev["op"]
+    if op == "delbias" and "SCRIPT err=ok" in blk:
+        k = obj_index(prev, "bias_" + ev["name"])
+        return (head + "deletebias %d" % k + tail, True) if k is not None else None
+    if op == "delcv" and "SCRIPT err=ok" in blk:
+        k = obj_index(prev, "colvar_" + ev["name"])
+        return (head + "deletecolvar %d" % k + tail, True) if k is not None else None
+    if op == "reset":
+        return (head + "reset" + tail, True)
+    if op == "set" and "SCRIPT err=ok" in blk:
+        k = obj_index(prev, ("colvar_" if ev["kind"] == "colvar" else "bias_") + ev["name"])
+        if k is None or ev["fid"] >= len(prev["objs"][k]["fs"]):
+            return None
+        return (head + "%s %d %d" % ("enable" if ev["val"] else "disable", k, ev["fid"]) + tail, True)
+    if op in ("addcv", "addbias") and "CONFIG err=ok" in blk and len(cur["objs"]) > len(prev["objs"]):
+        # structure only (links, numbering, atoms): which features an init function requests is not modelled
+        if op == "addbias":
+            k = len(cur["objs"]) - 1
+            ob = cur["objs"][k]
+            if ob["cls"] != 0 or len(cur["objs"]) != len(prev["objs"]) + 1:
+                return None
+            t = ["newbias"] + shape_tokens([f[0] for f in ob["fs"]]) + [str(len(ob["ch"]))] + [str(c) for c in ob["ch"]]
+            return (head + " ".join(t) + tail, False)
+        tops = [j for j, ob in enumerate(cur["objs"]) if ob["cls"] == 1]
+        if not tops:
+            return None
+        v = tops[-1]
+        ob = cur["objs"][v]
+        t = ["newcolvar"] + shape_tokens([f[0] for f in ob["fs"]]) + [str(len(ob["ch"]))]
+        for c in ob["ch"]:
+            co = cur["objs"][c]
+            t += shape_tokens([f[0] for f in co["fs"]]) + [str(len(co["ch"]))]
+            for g in co["ch"]:
+                go = cur["objs"][g]
+                held = go.get("atoms", []) + go.get("fit", [])
+                t += shape_tokens([f[0] for f in go["fs"]]) + [str(len(held))] + [str(a) for a in held]
+        return (head + " ".join(t) + tail, False)
+    return None
+
+
 # ------------------------------------------------------------------ findings (root causes) and their fixed witnesses
 F1 = "double-release-on-delete-of-inactive-bias"
 F2 = "variable-deactivated-when-last-bias-deleted"
@@ -431,8 +568,19 @@ W_F4 = ("natoms 3\nnew\nconfig EOF\ncolvar {\n  name d\n  distanceVec {\n    gro
         "dumpdeps\ndepsop 0 enable 4 0 1 0\ndumpdeps\necho END\n")
 
 
+# F5 (repaired in /repo: "fix: running average switched on by script divided by an uninitialised stride"): a capability
+# enabled at run time whose parameters were only ever initialised by the configuration keyword that enables it
 F5 = "script-set-running-average-sigfpe"
-W_F5 = ("natoms 2\nnew\nconfig EOF\n" + XZ + "EOF\nscriptset colvar x 28 1\npos 1 0 0 1.0\nstep\nstep\nstep\necho END\n")
+W_F5 = ("natoms 2\nnew\nconfig EOF\n" + XZ + "EOF\nscriptset colvar x 28 1\npos 1 0 0 1.0\nstep\npos 1 0 0 2.0\nstep\npos 1 0 0 3.0\nstep\necho END\n")
+W_F5_REF = ("natoms 2\nnew\nconfig EOF\n" + XZ + "EOF\npos 1 0 0 1.0\nstep\npos 1 0 0 2.0\nstep\npos 1 0 0 3.0\nstep\necho END\n")
+
+
+# F7 (repair on fix-C13-2: "fix: scaledBiasingForce switched on by script dereferenced a null map of scaling factors"): like F5,
+# a capability switched on at run time whose data is only created by the configuration keyword
+F7 = "script-set-scaled-biasing-force-null-map"
+XZG = XZ.replace("  distanceZ {", "  lowerBoundary -4.0\n  upperBoundary 4.0\n  width 0.5\n  distanceZ {")
+W_F7 = ("natoms 2\nnew\nconfig EOF\n" + XZG + HARM % ("h", "") + "EOF\nscriptset bias h 14 1\npos 1 0 0 1.0\nstep\npos 1 0 0 2.0\nstep\necho END\n")
+W_F7_REF = ("natoms 2\nnew\nconfig EOF\n" + XZG + HARM % ("h", "") + "EOF\npos 1 0 0 1.0\nstep\npos 1 0 0 2.0\nstep\necho END\n")
 
 
 def run_scn(unit, d, text, name="w.scn"):
@@ -444,7 +592,8 @@ def run_scn(unit, d, text, name="w.scn"):
 
 def replay_witnesses(run, unit, d, tabs, model):
     """The counterexamples of the *_refuted theorems, replayed on the implementation on every run."""
-    # F1: forces of the surviving bias vanish after an asleep multiple-time-step bias is deleted
+    # F1 (repaired in /repo; regression scenario that must pass): forces of the surviving bias vanish after an asleep
+    # multiple-time-step bias is deleted
     rc, o, e = run_scn(unit, d, W_F1)
     rc2, o2, e2 = run_scn(unit, d, W_F1_REF)
     A, B = last_step_block(o), last_step_block(o2)
@@ -465,12 +614,33 @@ def replay_witnesses(run, unit, d, tabs, model):
                       "enable, the bias adds and removes one reference, reaching 0 auto-disables it): %s instead of %s" % (
                           [l for l in A if l.startswith("CV")], [l for l in B if l.startswith("CV")]),
                       {"kind": "identity", "scenario": W_F2, "reference": W_F2_REF})
-    # F5: enabling the running average through the script interface leaves its length/stride 0: integer division by zero
+    # F5 (repaired in /repo; regression scenario that must pass): switching the running average on through the script
+    # interface must neither kill the process nor change what the variable reports
     rc, o, e = run_scn(unit, d, W_F5)
+    rc2, o2, e2 = run_scn(unit, d, W_F5_REF)
     run.count("witness:F5", True)
-    if "echo END" not in o and rc in (-8, 136):
-        run.violation(F5, "`cv colvar x set \"running average\" 1` followed by a step kills the process with SIGFPE in colvar::calc_runave "
-                      "(runave_length/stride are 0 when the feature is not enabled from the configuration)", {"kind": "scenario", "scenario": W_F5})
+    if "echo END" not in o:
+        run.violation(F5, "`cv colvar x set \"running average\" 1` followed by a step kills the process (rc=%d%s) in colvar::calc_runave: "
+                      "runave_stride/runave_length are only initialised when `runAve on` is read from the configuration" % (
+                          rc, ", SIGFPE" if rc in (-8, 136) else ""), {"kind": "scenario", "scenario": W_F5})
+    else:
+        A, B = last_step_block(o), last_step_block(o2)
+        if "err=ok" not in (A or [""])[0] or not obs_equal(A, B):
+            run.violation(F5 + ":observables", "switching the running average of x on by script changes the step results: %s instead of %s" % (A, B),
+                          {"kind": "identity", "scenario": W_F5, "reference": W_F5_REF})
+    # F7: switching scaledBiasingForce on by script (no map of scaling factors exists): must not crash, force unscaled
+    rc, o, e = run_scn(unit, d, W_F7)
+    rc2, o2, e2 = run_scn(unit, d, W_F7_REF)
+    run.count("witness:F7", True)
+    if "echo END" not in o:
+        run.violation(F7, "`cv bias h set \"scale_biasing_force\" 1` followed by a step kills the process (rc=%d%s) in colvarbias::communicate_forces: "
+                      "biasing_force_scaling_factors is NULL unless scaledBiasingForce was read from the configuration" % (
+                          rc, ", SIGSEGV" if rc in (-11, 139) else ""), {"kind": "scenario", "scenario": W_F7})
+    else:
+        A, B = last_step_block(o), last_step_block(o2)
+        if "err=ok" not in (A or [""])[0] or not obs_equal(A, B):
+            run.violation(F7 + ":observables", "switching scaledBiasingForce on by script (no map) changes the step results: %s instead of %s" % (A, B),
+                          {"kind": "identity", "scenario": W_F7, "reference": W_F7_REF})
     # F3: script "set <feature> off" of a feature with exactly one dependent
     rc, o, e = run_scn(unit, d, W_F3)
     dumps = D.parse_deps_blocks(o.split("\n"))
@@ -572,6 +742,9 @@ def check(run):
 
     nseq = 30 if quick else 600
     seqs = [gen_sequence(r, k, r.randint(6, 40 if k % 3 else 14)) for k in range(nseq)]
+    enum_seqs = [] if quick else list(enum_sequences(4))
+    seqs += enum_seqs
+    enum_out = {}
     mlines, mexpect = [], []
     nprim = ndel = 0
     for seq in seqs:
@@ -585,7 +758,9 @@ def check(run):
             run.violation("history:crash", "the engine simulator died (rc=%d) during a define/delete history: %s" % (rc, (o[-300:] + e[-300:])),
                           {"kind": "scenario", "scenario": sc})
             continue
-        run.dist("histories")
+        run.dist("histories:enumerated" if seq.get("enum") else "histories")
+        if seq.get("enum"):
+            enum_out[seq["id"]] = o
         final = None
         prev = {"objs": [], "atoms": {}}
         prev_bad = set()
@@ -598,21 +773,31 @@ def check(run):
             cur = dumps[-1]
             final = cur
             part = {"id": seq["id"], "samestep": seq["samestep"], "events": seq["events"][:i + 1]}
-            # model replay of the deletion of a bias
-            if ev["op"] == "delbias" and "SCRIPT err=ok" in blk and D.encodable(prev):
-                k = [j for j, ob in enumerate(prev["objs"]) if ob["desc"] == "bias_" + ev["name"]]
-                if len(k) == 1:
-                    mlines.append("OP %d %d deletebias %d ST %s" % (lag, FUEL, k[0], D.encode_state(prev)))
-                    mexpect.append(("delete", k[0], cur, part, None, None))
-                    ndel += 1
-            bad = D.monitor(tabs, cur)
+            # model replay of the event (deletion of a bias / of a variable with its biases, reset, script set of a
+            # feature; structure only for definitions)
+            mc = module_case(ev, blk, prev, cur, lag)
+            if mc is not None:
+                mlines.append(mc[0])
+                mexpect.append(("mop", ev["op"], cur, part, mc[1], None))
+                ndel += 1
+            if D.encodable(cur):
+                mlines.append("CHK %d 40 ST %s" % (lag, D.encode_state(cur)))
+                mexpect.append(("chk", "%d %d" % (1 if D.consistent_py(tabs, cur) else 0, 0 if any(c == "I2" for c, _ in D.monitor(tabs, cur)) else 1), cur, part, None, None))
+                lk = D.monitor_links(cur)
+                mlines.append("MOP %d %d check %s" % (lag, FUEL, D.encode_mstate(cur, NATOMS)))
+                mexpect.append(("chk", "%d %d" % (0 if any(c != "A1" for c, _ in lk) else 1, 0 if any(c == "A1" for c, _ in lk) else 1), cur, part, None, None))
+            bad = D.monitor(tabs, cur) + D.monitor_links(cur) + D.monitor_engine(tabs, cur)
+            need = D.need_counts(tabs, cur)
+            leak = sum(1 for oi, ob in enumerate(cur["objs"]) for g, f in enumerate(ob["fs"]) if f[2] > need[oi][g])
+            run.dist("dump:ref_count-above-accounted-need" if leak else "dump:ref_count-equals-accounted-need")
             new = [b for b in bad if b[1] not in prev_bad]
             prev_bad = set(b[1] for b in bad)
             if new and not tainted:
                 code, text = new[0]
-                if ev["op"] in ("delbias", "delcv") and biases_inactive(prev):
+                deps_code = code in ("I1", "I3", "I4", "I4neg", "I5", "I6")
+                if deps_code and ev["op"] in ("delbias", "delcv") and biases_inactive(prev):
                     sig = F1
-                elif ev["op"] == "set" and ev["val"] == 0:
+                elif deps_code and ev["op"] == "set" and ev["val"] == 0:
                     sig = F3
                 else:
                     sig = "monitor:%s:%s" % (code, ev["op"])
@@ -620,7 +805,7 @@ def check(run):
                 run.violation(sig, "after event %d (%s) of a define/delete history: %s" % (i, ev["op"], text),
                               {"kind": "scenario", "scenario": scenario(part), "monitor": text})
             prev = cur
-        if final is None:
+        if final is None or seq.get("enum"):
             continue
         # (2) primitive-step correspondence from the reached state
         ops = gen_depsops(r, final, tabs, r.randint(12, 25))
@@ -651,18 +836,30 @@ def check(run):
     if len(mout) != len(mlines):
         run.mismatch("primitive:model-run", {"n": len(mlines)}, "%d cases" % len(mlines), "%d answers (rc=%d) %s" % (len(mout), rc, e[-300:]))
     for ml, mo, ex in zip(mlines, mout, mexpect):
-        if ex[0] == "delete":
-            _, k, cur, part, _, _ = ex
+        if ex[0] == "chk":
+            _, pyverdict, cur, part, _, _ = ex
             run.count(ml, True)
-            run.dist("model:delete_bias")
+            run.dist(("model:consistent_check=" if ml.startswith("CHK") else "model:wf_check,acct_check=") + mo.strip())
+            if mo.strip() != pyverdict:
+                run.mismatch("consistent_check" if ml.startswith("CHK") else "structure_check", {"scenario": scenario(part), "model_case": ml},
+                             "python monitor: %s" % pyverdict, mo[:50])
+            continue
+        if ex[0] == "mop":
+            _, evop, cur, part, with_fs, _ = ex
+            run.count(ml, True)
+            run.dist("model:" + evop)
+            comp = "module:" + evop
             w = mo.split()
-            if w[0] != "0":
-                run.mismatch("delete_bias", {"scenario": scenario(part), "model_case": ml}, "deleted", mo[:200])
+            if not w or w[0] != "0":
+                run.mismatch(comp, {"scenario": scenario(part), "model_case": ml}, "event replayed", mo[:200])
                 continue
-            got = D.encode_state(renumber_without(decode_state(w[1:]), k))
-            exp = D.encode_state(cur)
-            if got != exp:
-                run.mismatch("delete_bias", {"scenario": scenario(part), "model_case": ml}, exp[:3000], got[:3000])
+            got, err = D.canon_mstate(D.decode_mstate(w[1:]))
+            if got is None:
+                run.mismatch(comp, {"scenario": scenario(part), "model_case": ml}, "a state without dangling references", err)
+                continue
+            kg, kc = D.mstate_key(got, with_fs), D.mstate_key(cur, with_fs)
+            if kg != kc:
+                run.mismatch(comp, {"scenario": scenario(part), "model_case": ml}, str(kc)[:3000], str(kg)[:3000])
             continue
         _, exp, opl, seq, k, ops = ex
         pre_tokens = ml.split(" ST ")[1]
@@ -680,19 +877,41 @@ def check(run):
             run.mismatch("primitive:" + kind, {"op": opl, "scenario": scenario(seq, dumps=False, tail=tail), "model_case": ml},
                          exp[:3000], mo[:3000])
     if mlines:
-        run.sample({"primitive_case": mlines[-1][:300] + " ...", "impl": mexpect[-1][1][:120] if mexpect[-1][0] == "prim" else "delete"})
+        run.sample({"primitive_case": mlines[-1][:300] + " ...", "impl": mexpect[-1][1][:120] if mexpect[-1][0] == "prim" else "module event"})
+
+    # ---- corpus of earlier identity failures (scenario, reference, signature of the root cause), run first
+    import glob
+    for cf in sorted(glob.glob(os.path.join(V.ROOT, "corpus", "C13_identity_*.json"))):
+        cj = json.load(open(cf))
+        rc1, o1, e1 = run_scn(unit, d, cj["scenario"], "i.scn")
+        rc2, o2, e2 = run_scn(unit, d, cj["reference"], "j.scn")
+        run.count("corpus:" + os.path.basename(cf), True)
+        A, B = last_step_block(o1), last_step_block(o2)
+        if A is None or B is None or "echo END" not in o1 or "echo END" not in o2:
+            run.violation("identity:crash", "corpus history %s no longer runs to its end (rc=%d/%d)" % (os.path.basename(cf), rc1, rc2),
+                          {"kind": "identity", "scenario": cj["scenario"], "reference": cj["reference"]})
+        elif not obs_equal(A, B):
+            run.violation(cj["signature"], "corpus history %s (%s): the last step differs from the run in which the deleted objects never existed: %s instead of %s" % (
+                os.path.basename(cf), cj.get("note", "")[:300], [l for l in A if l not in B][:4], [l for l in B if l not in A][:4]),
+                {"kind": "identity", "scenario": cj["scenario"], "reference": cj["reference"]})
 
     # ---- (3) define/delete identity on the implementation: survivors-only re-run
     r2 = V.rng("C13-identity")
     nid = 40 if quick else 800
+    id_items = []
     for k in range(nid):
         seq = gen_sequence(r2, k, r2.randint(5, 24), with_set=False)
         # the compared step comes after every deletion
         seq["events"].append({"op": "step", "pos": [(a, V.dyadic(r2, -3, 3, 4), V.dyadic(r2, -3, 3, 4), V.dyadic(r2, -3, 3, 4)) for a in range(1, NATOMS + 1)]})
+        id_items.append((seq, None))
+    # every enumerated history that deletes something (its run with dumps was made above)
+    id_items += [(es, enum_out[es["id"]]) for es in enum_seqs
+                 if es["id"] in enum_out and any(e["op"] in ("delbias", "delcv", "reset") for e in es["events"])]
+    for k, (seq, o1pre) in enumerate(id_items):
         tabs = tabs_same if seq["samestep"] else tabs_lagged
         ref, lcv, lb = survivors_only(seq)
         sc1, sc2 = scenario(seq, dumps=True), scenario(ref, dumps=False)
-        rc1, o1, e1 = run_scn(unit, d, sc1, "i.scn")
+        rc1, o1, e1 = run_scn(unit, d, sc1, "i.scn") if o1pre is None else (0, o1pre, "")
         rc2, o2, e2 = run_scn(unit, d, sc2, "j.scn")
         if "echo END" not in o1 or "echo END" not in o2:
             run.violation("identity:crash", "the engine simulator died during a define/delete history (rc=%d/%d)" % (rc1, rc2),
@@ -704,11 +923,17 @@ def check(run):
         blocks = split_events(o1) or []
         # was a bias deleted while inactive / did the monitor fire?
         f1_hit = False
+        f2_hit = []
         prev = {"objs": [], "atoms": {}}
         for ev, blk in zip(seq["events"], blocks):
             dumps = D.parse_deps_blocks(blk.split("\n"))
             if ev["op"] in ("delbias", "delcv", "reset") and biases_inactive(prev):
                 f1_hit = True
+            if dumps and ev["op"] in ("delbias", "delcv"):
+                # a surviving variable that was active before the deletion and is not after it (finding F2): from then on
+                # it is not computed until another bias wakes it up, and its lagged total force restarts from nothing
+                was = {o["desc"] for o in prev["objs"] if o["cls"] == 1 and o["fs"] and o["fs"][0][1]}
+                f2_hit += [o["desc"] for o in dumps[-1]["objs"] if o["cls"] == 1 and o["fs"] and not o["fs"][0][1] and o["desc"] in was]
             if dumps:
                 prev = dumps[-1]
         f1, f2 = D.parse_deps_blocks(o1.split("\n")), D.parse_deps_blocks(o2.split("\n"))
@@ -716,10 +941,44 @@ def check(run):
             continue
         ndeleted = sum(1 for ev in seq["events"] if ev["op"] in ("delbias", "delcv", "reset"))
         run.count("identity:%d" % k, ndeleted > 0 and bool(lcv))
-        run.dist("identity:histories")
+        run.dist("identity:histories:enumerated" if seq.get("enum") else "identity:histories")
         run.dist("identity:deletions", ndeleted)
-        compare_identity(run, seq, ref, f1[-1], f2[-1], o1, o2, tabs, f1_hit)
-    run.cov["correspondence"].update({"histories": len(seqs), "primitive_cases": nprim, "delete_bias_cases": ndel, "identity_histories": nid})
+        compare_identity(run, seq, ref, f1[-1], f2[-1], o1, o2, tabs, f1_hit, f2_hit)
+    if not quick:
+        asan_stream(run, 300)
+    run.cov["correspondence"].update({"histories": len(seqs), "primitive_cases": nprim, "module_event_cases": ndel, "identity_histories": len(id_items), "enumerated_histories": len(enum_seqs)})
+
+
+def asan_stream(run, n):
+    """thorough tier: define/delete histories (ending with a reset half of the time) under AddressSanitizer +
+    UndefinedBehaviorSanitizer + LeakSanitizer: a reference to a destroyed object that is USED, or an object that is
+    never destroyed, is a concrete failing input"""
+    try:
+        unit = V.build_prog("c13unit", UNIT_SRC, variant="asan")
+    except V.InfraError as e:
+        run.notes.append("asan variant could not be built: %s" % str(e)[-300:])
+        return
+    r = V.rng("C13-asan")
+    d = V.scratch("C13a")
+    env = dict(os.environ, ASAN_OPTIONS="detect_leaks=1:exitcode=99", UBSAN_OPTIONS="print_stacktrace=1")
+    for k in range(n):
+        seq = gen_sequence(r, k, r.randint(6, 40), with_set=(k % 2 == 0))
+        if k % 2:
+            seq["events"].append({"op": "reset"})
+        sc = scenario(seq, dumps=False)
+        open(os.path.join(d, "a.scn"), "w").write(sc)
+        rc, o, e = V.sh([unit, "a.scn"], cwd=d, timeout=600, env=env)
+        run.count("asan:%d" % k, True)
+        run.dist("asan:histories")
+        m = re.search(r"ERROR: (AddressSanitizer|LeakSanitizer): ([^\n]*)", e) or re.search(r"(runtime error): ([^\n]*)", e)
+        if m:
+            kind = "undefined-behaviour" if m.group(1) == "runtime error" else ("leak" if m.group(1) == "LeakSanitizer" else m.group(2).split()[0])
+            frames = [l.strip() for l in e.split("\n") if re.match(r"\s*#\d+ ", l) and "colvar" in l][:6]
+            run.violation("asan:" + kind, "a define/delete history under the sanitizers: %s: %s; %s" % (m.group(1), m.group(2)[:200], " | ".join(frames)[:700]),
+                          {"kind": "scenario", "scenario": sc, "variant": "asan"})
+        elif "echo END" not in o:
+            run.violation("asan:crash", "the engine simulator (sanitizer build) died (rc=%d) during a define/delete history: %s" % (rc, e[-300:]),
+                          {"kind": "scenario", "scenario": sc, "variant": "asan"})
 
 
 def table_oracles(run, tabs, label):
@@ -745,7 +1004,7 @@ def table_oracles(run, tabs, label):
                     label, D.CLASSES[c], f, ft["D"], sorted(cl & set(ft["X"]))), {"kind": "table", "class": c, "f": f})
 
 
-def compare_identity(run, seq, ref, s1, s2, o1, o2, tabs, f1_hit):
+def compare_identity(run, seq, ref, s1, s2, o1, o2, tabs, f1_hit, f2_hit=()):
     rp = {"kind": "identity", "scenario": scenario(seq, dumps=False), "reference": scenario(ref, dumps=False)}
     if len(s1["objs"]) != len(s2["objs"]):
         run.violation("identity:objects", "after the history %d objects remain, %d in the run where the deleted objects never existed" % (
@@ -761,21 +1020,22 @@ def compare_identity(run, seq, ref, s1, s2, o1, o2, tabs, f1_hit):
     if A is not None and B is not None and not obs_equal(A, B):
         diffA = [l for l in A if l not in B][:4]
         diffB = [l for l in B if l not in A][:4]
-        if f1_hit:
+        if deact or f2_hit:
+            sig = F2          # the dumps show a surviving variable switched off by a deletion
+        elif f1_hit:
             sig = F1
-        elif deact:
-            sig = F2
         else:
             sig = "identity:observables"
         run.violation(sig, "values/energies/forces at the last step differ from the run in which the deleted objects never existed: %s instead of %s%s" % (
-            diffA, diffB, (" (inactive after the history: %s)" % deact) if deact else ""), rp)
+            diffA, diffB, (" (inactive after the history: %s)" % deact) if deact else
+            ((" (deactivated by the deletion of its last bias during the history: %s)" % sorted(set(f2_hit))) if f2_hit else "")), rp)
 
 
 def replay(path):
     j = json.load(open(path))
     rp = j["replay"]
     print(json.dumps(j, indent=1)[:3000])
-    unit = V.build_prog("c13unit", UNIT_SRC)
+    unit = V.build_prog("c13unit", UNIT_SRC, variant=rp.get("variant", "plain"))
     d = V.scratch("C13r")
     for key in ("scenario", "reference"):
         if key in rp:
